@@ -108,6 +108,13 @@ def _helper_shape(fn):
     body = _strip_doc(fn.body)
     if not body or _has(fn, (ast.Yield, ast.YieldFrom, ast.Await, ast.Global, ast.Nonlocal)):
         return None
+    if any(isinstance(r, ast.Return) and r.value is None for st in body for r in ast.walk(st)):
+        # bare-return guards of a procedure: `if U: return` + REST  ==  `if not U: REST`
+        tmp = ast.FunctionDef(name=fn.name, args=fn.args, body=copy.deepcopy(body), decorator_list=[], returns=None, lineno=fn.lineno, col_offset=0)
+        unguard(tmp, {})
+        body = tmp.body
+        if body and isinstance(body[-1], ast.Return) and body[-1].value is None:
+            body = body[:-1] or [ast.Pass()]
     if any(isinstance(n, (ast.FunctionDef, ast.AsyncFunctionDef, ast.ClassDef)) for st in body for n in ast.walk(st)):
         return None
     # boolean helper shapes
@@ -125,10 +132,10 @@ def _helper_shape(fn):
             k += 1
         e = _cascade(body[k:])
         if e is None or any(_has(st, (ast.For, ast.While, ast.Try, ast.With)) for st in body[:k]):
-            return None
+            return ("whole", body)
         return ("stmts", body[:k], e) if k else ("expr", e)
     if rets and rets[0] is not body[-1]:
-        return None
+        return ("whole", body)
     if len(body) == 1 and rets and rets[0].value is not None:
         return ("expr", rets[0].value)
     if rets:
@@ -255,6 +262,17 @@ def _inline_in(f, h, shp, owner, bound, selfname):
                 call, kind = st.value, "assign"
             elif isinstance(st, ast.Return) and isinstance(st.value, ast.Call) and _callee_name(st.value, owner) == h.name:
                 call, kind = st.value, "return"
+            if isinstance(st, ast.Return) and isinstance(st.value, ast.Call) and _callee_name(st.value, owner) == h.name and shp[0] == "whole":
+                sm = subst_map(st.value)
+                if sm is not None:
+                    m, pre = sm
+                    new = list(pre) + [_Subst(m).visit(copy.deepcopy(s_)) for s_ in shp[1]]
+                    for s_ in new:
+                        ast.fix_missing_locations(ast.copy_location(s_, st))
+                    blk[i:i + 1] = new
+                    done += 1
+                    i += len(new)
+                    continue
             if call is None and shp[0] == "stmts" and shp[2] is not None and isinstance(st, (ast.If, ast.While, ast.Assign, ast.Return, ast.Expr)) and not isinstance(st, ast.While):
                 holder = st.test if isinstance(st, ast.If) else st.value
                 cs = [c for c in ast.walk(holder) if isinstance(c, ast.Call) and _callee_name(c, owner) == h.name] if holder is not None else []
@@ -282,6 +300,13 @@ def _inline_in(f, h, shp, owner, bound, selfname):
                         done += 1
                         i += len(new) + 1
                         continue
+            if call is not None and shp[0] == "whole":
+                if kind == "return":
+                    i += 1
+                    continue
+                left += 1
+                i += 1
+                continue
             if call is not None:
                 sm = subst_map(call)
                 if sm is None:
@@ -330,6 +355,8 @@ def _inline_in(f, h, shp, owner, bound, selfname):
         def visit_Call(self, node):
             self.generic_visit(node)
             if _callee_name(node, owner) == h.name:
+                if shp[0] == "whole" and getattr(node, "_pdv_ret", False):
+                    return node
                 if shp[0] != "expr":
                     self.left += 1
                     return node
@@ -387,6 +414,39 @@ def split_ifexp_statements(fnode, ref: dict) -> int:
                 n += 1
     if n:
         ast.fix_missing_locations(fnode)
+    return n
+
+
+def contract_known_ifexp(fnode, ref: dict) -> int:
+    """`if c: x = A [else: x = B]` -> `x = A if c else B|x` when the reference has exactly that conditional expression"""
+    known = set(ref.get("ifexps", []))
+    if not known:
+        return 0
+    n = 0
+    for owner, fld, blk in _blocks(fnode):
+        for i, st in enumerate(blk):
+            if isinstance(st, ast.If) and len(st.body) == 1 and isinstance(st.body[0], ast.Assign) and len(st.body[0].targets) == 1 and len(st.orelse) <= 1:
+                tgt = st.body[0].targets[0]
+                if st.orelse:
+                    o = st.orelse[0]
+                    if not (isinstance(o, ast.Assign) and len(o.targets) == 1 and _unparse(o.targets[0]) == _unparse(tgt)):
+                        continue
+                    other = o.value
+                else:
+                    if not isinstance(tgt, (ast.Name, ast.Attribute)):
+                        continue
+                    other = copy.deepcopy(tgt)
+                    for x in ast.walk(other):
+                        if hasattr(x, "ctx"):
+                            x.ctx = ast.Load()
+                for cand in (ast.IfExp(test=st.test, body=st.body[0].value, orelse=other), ast.IfExp(test=_negate(copy.deepcopy(st.test)), body=other, orelse=st.body[0].value)):
+                    ast.fix_missing_locations(ast.copy_location(cand, st))
+                    if _unparse(cand) in known:
+                        new = ast.Assign(targets=[tgt], value=cand)
+                        ast.fix_missing_locations(ast.copy_location(new, st))
+                        blk[i] = new
+                        n += 1
+                        break
     return n
 
 
@@ -456,6 +516,19 @@ def inline_new_locals(fnode, ref: dict) -> int:
                     reb = reb or rebinds(s2)
         all_uses = [n for n in ast.walk(fnode) if isinstance(n, ast.Name) and n.id == nm and isinstance(n.ctx, ast.Load)]
         if reb or not uses or len(uses) != len(all_uses):
+            continue
+        # a container that is filled / mutated through the name is not a temporary
+        mutated = False
+        for s2 in after:
+            for n in ast.walk(s2):
+                if isinstance(n, (ast.Subscript, ast.Attribute)) and isinstance(n.value, ast.Name) and n.value.id == nm:
+                    if isinstance(n.ctx, (ast.Store, ast.Del)):
+                        mutated = True
+                    if isinstance(n, ast.Attribute) and n.attr in ("append", "extend", "add", "update", "insert", "setdefault", "pop", "remove", "clear", "sort", "reverse", "discard", "popitem", "appendleft"):
+                        mutated = True
+                if isinstance(n, ast.AugAssign) and isinstance(n.target, ast.Name) and n.target.id == nm:
+                    mutated = True
+        if mutated:
             continue
         if _has(st.value, (ast.Call,)) and len(uses) > 1:
             continue
